@@ -5,13 +5,22 @@
    calls that reached the channel cache during the operation (kind, sequence, end, Skipped flag,
    whether the sequence was still in the skipped list at the time of the call); at the end of the
    trace, the sequences held by the "*" channel cache and its late-sequence log. *)
-From SG Require Export Base.Prelude C08.SkippedSet C08.SeqBuffer.
+From SG Require Export Base.Prelude C08.SkippedSet C08.SeqBuffer C08.ChanLayer.
 Open Scope N_scope.
 
 Record obs := mkO { o_next : N; o_pend : list (N * N); o_recv : list N; o_skip : list rng;
                     o_stable : N; o_dl : list dlv }.
 
-Inductive case := Case (maxp initial : N) (steps : list (op * obs)) (star : list N) (late : list N).
+(* Case: a trace of the sequence buffer with the final contents of the "*" channel cache and of its late log.
+   XCase: a trace that also opens channel caches lazily (XOpen); final observation per channel cache:
+   (channel id, validFrom, sequences in the channel log sorted, what a feed registered at creation reads from the
+   late-sequence log, in arrival order).  Documents are in the channels [chf_bits] of their sequence number. *)
+Inductive case :=
+| Case (maxp initial : N) (steps : list (op * obs)) (star : list N) (late : list N)
+| XCase (maxp initial : N) (steps : list (xop * obs)) (chans : list (N * N * list N * list N)).
+
+Definition chf_bits (s : N) : list N :=
+  (if N.odd s then [1] else []) ++ (if N.odd (s / 2) then [2] else []).
 
 Definition pair_eqb (a b : N * N) : bool := (fst a =? fst b) && (snd a =? snd b).
 Definition pair_leb (a b : N * N) : bool := (fst a <? fst b) || ((fst a =? fst b) && (snd a <=? snd b)).
@@ -23,10 +32,6 @@ Definition isort {A} (leb : A -> A -> bool) (l : list A) : list A := fold_right 
 Definition dlv_eqb (a b : dlv) : bool :=
   kind_eqb (d_kind a) (d_kind b) && (d_seq a =? d_seq b) && (d_end a =? d_end b)
   && Bool.eqb (d_late a) (d_late b) && Bool.eqb (d_inskip a) (d_inskip b).
-
-(* the deliveries made since the state [old], oldest first *)
-Definition new_dl (old new : state) : list dlv :=
-  rev (firstn (length (delivered new) - length (delivered old)) (delivered new)).
 
 Definition obs_ok (old new : state) (o : obs) : bool :=
   (next new =? o_next o)
@@ -42,7 +47,18 @@ Fixpoint steps_ok (st : state) (l : list (op * obs)) : option state :=
   | (o, ob) :: r => let st' := step st o in if obs_ok st st' ob then steps_ok st' r else None
   end.
 
-Definition is_doc (d : dlv) : bool := kind_eqb (d_kind d) KDoc.
+Fixpoint xsteps_ok (x : xstate) (l : list (xop * obs)) : option xstate :=
+  match l with
+  | [] => Some x
+  | (o, ob) :: r => let x' := xstep chf_bits x o in if obs_ok (x_buf x) (x_buf x') ob then xsteps_ok x' r else None
+  end.
+
+Definition chan_obs (c : chan) : N * N * list N * list N :=
+  (c_id c, c_valid c, isort N.leb (c_logs c), late_since 0 c).
+Definition chan_obs_eqb (a b : N * N * list N * list N) : bool :=
+  match a, b with
+  | (i1, v1, l1, t1), (i2, v2, l2, t2) => (i1 =? i2) && (v1 =? v2) && list_eqb N.eqb l1 l2 && list_eqb N.eqb t1 t2
+  end.
 
 Definition check (c : case) : bool :=
   match c with
@@ -53,6 +69,11 @@ Definition check (c : case) : bool :=
           let docs := rev (filter is_doc (delivered st)) in
           list_eqb N.eqb (isort N.leb (map d_seq docs)) star
           && list_eqb N.eqb (map d_seq (filter d_late docs)) late
+      end
+  | XCase m i steps chans =>
+      match xsteps_ok (xinit i m) steps with
+      | None => false
+      | Some x => list_eqb chan_obs_eqb (map chan_obs (x_chans x)) chans
       end
   end.
 
